@@ -7,7 +7,8 @@
    and from the second block on [result = concat([result, reduced_chunk])] allocates 2 R (the old
    result is released when the name is rebound) and [result = reduce_func(result)] allocates R
    (the concatenation is released afterwards).  Python locals (array, reduced_chunk) stay bound
-   until the next iteration rebinds them; in the first iteration result IS reduced_chunk. *)
+   until the next iteration rebinds them (array: by the for statement, as soon as the next block has been
+   read); in the first iteration result IS reduced_chunk. *)
 From CubedV Require Import Model.Util Model.Memory.
 Local Open Scope Z_scope.
 
@@ -22,10 +23,11 @@ Definition pr0 : prstate := {| st_array := 0; st_reduced := 0; st_result := 0 |}
 Definition pr_iter (rc x R' R : Z) (with_init first : bool) (s : prstate) : Z * prstate :=
   let a0 := pr_alive s in
   let p_read := a0 + x * rc + x in
-  (* array = initial_func(block): new array while the old array and the block are alive *)
-  let p_init := if with_init then a0 + x + R' else a0 + x in
+  (* [for array in arrays] rebinds the name to the block: the old array is released once the block has arrived;
+     array = initial_func(block): new array while the block is alive *)
+  let p_init := if with_init then a0 - st_array s + x + R' else a0 - st_array s + x in
   let arr := if with_init then R' else x in
-  let a1 := a0 - st_array s + arr in                 (* old array (and the block, if converted) released *)
+  let a1 := a0 - st_array s + arr in                 (* the block, if converted, released *)
   (* reduced_chunk = reduce_func(array): new chunk while the old one is still bound *)
   let p_red := a1 + R in
   let a2 := a1 - st_reduced s + R in
